@@ -35,7 +35,7 @@ MACHINE_OF = {
     "C07": "reader", "C15": "settings", "C18": "recording", "C19": "cli",
 }
 BUDGET = {  # seconds of search (quick, thorough)
-    "default": (25, 600), "C19": (40, 900), "C20": (40, 900), "C03": (30, 600), "C09": (30, 600),
+    "default": (25, 600), "C06": (35, 600), "C19": (40, 900), "C20": (40, 900), "C03": (30, 600), "C09": (30, 600),
 }
 CHUNK = {"default": 40, "C19": 1, "C20": 4, "C03": 6, "C09": 6, "C12": 8, "C11": 4, "C15": 20, "C08": 12, "C05": 20, "C06": 25}
 RUN_TIMEOUT = {"default": 120, "C19": 300, "C20": 300}
